@@ -24,7 +24,7 @@ Lemma cli_formats_known :
   /\ forallb (fun s => text_eqb s sep_comma_space) cli_join_seps = true.
 Proof. split; reflexivity. Qed.
 
-(* no character of the help text is touched by replace('"', ..) or by escape_json_string *)
+(* no character of the help text is touched by msg.replace (quote) or by escape_json_string *)
 Lemma cli_help_plain :
   forallb (fun c => negb (N.eqb c c_quote) && negb (N.eqb c c_bslash) && (32 <=? c) && (c <? 128))
           cli_help_msg = true.
